@@ -33,11 +33,23 @@ def key_pool(rng, cap, nkeys, long_keys=True):
         r = rng.random()
         if long_keys and r < 0.15:
             ln = rng.choice([15, 16, 17, 18, 40, 300])
-        elif long_keys and r < 0.17:
+        elif long_keys and r < 0.18:
             ln = 65535
         else:
             ln = rng.choice([1, 2, 3, 5, 8])
-        if ln == 17 and rng.random() < 0.5 and keys:
+        if ln == 65535 and any(len(x) > 20000 for x in keys):
+            # a second long key that shares its first 60000 bytes (and length) with an earlier one and lands in the same home slot:
+            # only the digest of the WHOLE key tells them apart
+            base = next(x for x in keys if len(x) > 20000)
+            k = None
+            for _ in range(4 * cap):
+                cand = base[:60000] + bytes(rng.randrange(256) for _ in range(len(base) - 60000))
+                if cand != base and murmur3_32(cand) % cap == murmur3_32(base) % cap:
+                    k = cand
+                    break
+            if k is None:
+                continue
+        elif ln == 17 and rng.random() < 0.5 and keys:
             # same 16-byte prefix as an earlier long key: only length/digest distinguish them
             base = next((k for k in keys if len(k) >= 17), None)
             k = (base[:16] if base else bytes(rng.randrange(1, 256) for _ in range(16))) + bytes([rng.randrange(256)])
@@ -158,6 +170,8 @@ def monitor(opline, impl, spec, cap):
             impl = w
     if impl in ('CRASH', 'TIMEOUT'):
         return {'op': kind, 'observed': impl.lower()}
+    if impl == 'ATTACH-REFUSED':
+        return {'op': 'attach', 'observed': 'second-handle-refused-on-valid-image'}
     if impl in ('DEAD', 'MISSING') or ' | ' not in impl:
         return None
     iobs, img = impl.split(' | ', 1)
